@@ -72,21 +72,21 @@ type Replay struct {
 	// PrefixSeeds: runs executed in the same worker process before the failing one; needed
 	// when the failure depends on state the system under test keeps in package-level
 	// variables across gateway instances of one process
-	PrefixSeeds []uint64 `json:"prefix_seeds,omitempty"`
-	Property string            `json:"property"`
-	Scenario string            `json:"scenario"`
-	Seed     uint64            `json:"seed"`
-	Tape     []uint32          `json:"tape"`
-	Args     map[string]string `json:"args,omitempty"`
-	Race     bool              `json:"race,omitempty"`
-	Oracle   string            `json:"oracle"`
-	Sig      string            `json:"sig"`
-	Msg      string            `json:"msg"`
-	Journal  string            `json:"journal_hash"`
-	Crash    string            `json:"crash,omitempty"`
-	Tree     string            `json:"repo_tree"`
-	Shrunk   string            `json:"shrunk,omitempty"`
-	Tail     []string          `json:"journal_tail,omitempty"`
+	PrefixSeeds []uint64          `json:"prefix_seeds,omitempty"`
+	Property    string            `json:"property"`
+	Scenario    string            `json:"scenario"`
+	Seed        uint64            `json:"seed"`
+	Tape        []uint32          `json:"tape"`
+	Args        map[string]string `json:"args,omitempty"`
+	Race        bool              `json:"race,omitempty"`
+	Oracle      string            `json:"oracle"`
+	Sig         string            `json:"sig"`
+	Msg         string            `json:"msg"`
+	Journal     string            `json:"journal_hash"`
+	Crash       string            `json:"crash,omitempty"`
+	Tree        string            `json:"repo_tree"`
+	Shrunk      string            `json:"shrunk,omitempty"`
+	Tail        []string          `json:"journal_tail,omitempty"`
 }
 
 var noEvidence bool
@@ -464,6 +464,60 @@ func main() {
 	os.Exit(runCheck(*prop, *tier, *seedF, plan, *runsF, nw, *scenF, *noShrink))
 }
 
+// agg folds results as they arrive so that millions of runs do not have to be kept.
+type agg struct {
+	evals, reach int
+	simMS        int64
+	stats        map[string]int
+	shapes       map[uint64]struct{}
+	samples      []any
+	failing      []*Result // runs with a violation or a crash (capped)
+	nFailing     int
+	infra        []string
+}
+
+func newAgg() *agg { return &agg{stats: map[string]int{}, shapes: map[uint64]struct{}{}} }
+
+func hash64(s string) uint64 {
+	h := uint64(14695981039346656037)
+	for i := 0; i < len(s); i++ {
+		h ^= uint64(s[i])
+		h *= 1099511628211
+	}
+	return h
+}
+
+func (a *agg) add(r *Result) {
+	if r.Infra != "" {
+		if len(a.infra) < 20 {
+			a.infra = append(a.infra, fmt.Sprintf("%s seed=%d: %s", r.Scenario, r.Seed, r.Infra))
+		}
+		return
+	}
+	a.evals++
+	a.simMS += r.SimMS
+	for k, v := range r.Stats {
+		a.stats[k] += v
+	}
+	if r.Reach {
+		a.reach++
+		if r.CaseKey != "" {
+			a.shapes[hash64(r.Scenario+":"+r.CaseKey)] = struct{}{}
+		} else {
+			a.shapes[hash64(r.Scenario+":"+r.Shape)] = struct{}{}
+		}
+		if len(a.samples) < 5 && r.Sample != "" && r.Violation == nil && r.Crash == "" {
+			a.samples = append(a.samples, map[string]any{"scenario": r.Scenario, "seed": r.Seed, "steps": r.Steps, "case": r.Sample, "faults_fired": r.Stats})
+		}
+	}
+	if r.Violation != nil || r.Crash != "" {
+		a.nFailing++
+		if len(a.failing) < 5000 {
+			a.failing = append(a.failing, r)
+		}
+	}
+}
+
 type workItem struct {
 	item  planItem
 	seeds []uint64
@@ -525,7 +579,7 @@ func runCheck(prop, tier string, base uint64, plan []planItem, runsOverride, nw 
 		}
 	}
 	var mu sync.Mutex
-	var all []*Result
+	ag := newAgg()
 	var infra []string
 	wallLimit := 25 * time.Minute
 	if tier == "thorough" {
@@ -557,7 +611,9 @@ func runCheck(prop, tier string, base uint64, plan []planItem, runsOverride, nw 
 					to := time.Duration(120+len(seeds)*3) * time.Second
 					res, crash, st, err := runWorker(worker, job, wi.item.Race, to)
 					mu.Lock()
-					all = append(all, res...)
+					for _, r := range res {
+						ag.add(r)
+					}
 					if err != nil {
 						infra = append(infra, fmt.Sprintf("%s: %v\n%s", wi.item.Scenario, err, tailStr(st, 3000)))
 						mu.Unlock()
@@ -565,7 +621,7 @@ func runCheck(prop, tier string, base uint64, plan []planItem, runsOverride, nw 
 					}
 					if crash != nil {
 						crash.Tail = strings.Split(tailStr(st, 6000), "\n")
-						all = append(all, crash)
+						ag.add(crash)
 					}
 					mu.Unlock()
 					// continue with the seeds after the crashed one
@@ -589,7 +645,8 @@ func runCheck(prop, tier string, base uint64, plan []planItem, runsOverride, nw 
 	}
 	wg.Wait()
 
-	return report(prop, tier, base, t0, all, infra, total, workerPlain, workerRace, plan, noShrink, genInfo)
+	infra = append(infra, ag.infra...)
+	return report(prop, tier, base, t0, ag, infra, total, workerPlain, workerRace, plan, noShrink, genInfo)
 }
 
 func tailStr(s string, n int) string {
@@ -599,8 +656,9 @@ func tailStr(s string, n int) string {
 	return s
 }
 
-func report(prop, tier string, base uint64, t0 time.Time, all []*Result, infra []string, total int, workerPlain, workerRace string, plan []planItem, noShrink bool, genInfo string) int {
+func report(prop, tier string, base uint64, t0 time.Time, ag *agg, infra []string, total int, workerPlain, workerRace string, plan []planItem, noShrink bool, genInfo string) int {
 	known := loadKnown()
+	all := ag.failing
 	sort.Slice(all, func(i, j int) bool {
 		if all[i].Scenario != all[j].Scenario {
 			return all[i].Scenario < all[j].Scenario
@@ -611,11 +669,11 @@ func report(prop, tier string, base uint64, t0 time.Time, all []*Result, infra [
 	for _, it := range plan {
 		raceOf[it.Scenario] = it.Race
 	}
-	stats := map[string]int{}
-	shapes := map[string]bool{}
-	var simMS int64
-	evals, reach := 0, 0
-	var samples []any
+	stats := ag.stats
+	shapes := ag.shapes
+	simMS := ag.simMS
+	evals, reach := ag.evals, ag.reach
+	samples := ag.samples
 	foreign := map[string]int{}
 	type fail struct {
 		r     *Result
@@ -624,29 +682,6 @@ func report(prop, tier string, base uint64, t0 time.Time, all []*Result, infra [
 	var fails []fail
 	knownHits := map[*knownFinding]*Result{}
 	for _, r := range all {
-		if r.Infra != "" {
-			infra = append(infra, fmt.Sprintf("%s seed=%d: %s", r.Scenario, r.Seed, r.Infra))
-			continue
-		}
-		evals++
-		simMS += r.SimMS
-		for k, v := range r.Stats {
-			stats[k] += v
-		}
-		if r.Reach {
-			reach++
-			if r.CaseKey != "" {
-				shapes[r.Scenario+":"+r.CaseKey] = true
-			} else {
-				shapes[r.Scenario+":"+r.Shape] = true
-			}
-		}
-		if r.Reach && len(samples) < 5 && r.Sample != "" && r.Violation == nil {
-			samples = append(samples, map[string]any{"scenario": r.Scenario, "seed": r.Seed, "steps": r.Steps, "case": r.Sample, "faults_fired": r.Stats})
-		}
-		if r.Violation == nil && r.Crash == "" {
-			continue
-		}
 		oracle, class := classOf(r)
 		owned := oracle == prop || (oracle == "crash" && crashOwned(prop))
 		if !owned {
